@@ -13,6 +13,8 @@ def run(prop, tier, seed):
         return R.ser_property(prop, tier, seed)
     if prop == "C16":
         return R.conv_property(prop, tier, seed)
+    if prop in ("C17", "C18"):
+        return R.io_property(prop, tier, seed)
     if prop == "C19":
         return R.lib_property(prop, tier, seed)
     if prop == "C20":
